@@ -369,7 +369,17 @@ func orchMain() int {
 			fmt.Println("HARNESS-ERROR: no runs executed")
 			return 2
 		}
-		fmt.Printf("dsim: property %s held on everything explored\n", prop)
+		nk := 0
+		for _, r := range reports {
+			if r.known {
+				nk++
+			}
+		}
+		if nk > 0 {
+			fmt.Printf("dsim: property %s: nothing beyond the %d known finding(s) listed above on everything explored\n", prop, nk)
+		} else {
+			fmt.Printf("dsim: property %s held on everything explored\n", prop)
+		}
 	}
 	return rc
 }
